@@ -22,6 +22,7 @@ def suites : List (String × (String → String → CaseResult)) :=
   [("parse15", ParseSuite.runCase .c15)] ++
   [("format", FormatSuite.runCase .c02)] ++
   [("format03", FormatSuite.runCase .c03)] ++
+  [("consts", ConstsSuite.runCase)] ++
   []
 
 structure DAcc where
